@@ -19,11 +19,13 @@ for d in sorted(glob.glob(os.path.join(os.path.dirname(os.path.dirname(os.path.a
         for c, seeds in rb.items():
             k = sum(1 for i in seeds.values() if i["exit"] == 1 and i["violation_lines"] > i["no_failing_input"])
             cell.append("%s %d/%d" % (c, k, len(seeds)))
+    st = json.load(open(d + "/static.json")) if os.path.exists(d + "/static.json") else None
+    static = "—" if st is None else (", ".join(x.replace("CmProps.", "").replace("CmProofs.", "proofs/").replace("CmGen.", "gen/") for x in st["broken_modules"]) or ("(outside the subset: " + ", ".join(st["untranslated"]) + ")" if st["untranslated"] else "none"))
     s = m.get("summary", "").replace("|", "/")
-    rows.append("| %s | %s | %s | %s | %s |%s" % (sid, s[:200] + ("…" if len(s) > 200 else ""), ", ".join(with_input) or "—", ", ".join(only_corr) or "—",
-                                                   ", ".join(cell) or "—", (" exit 2: " + ", ".join(infra)) if infra else ""))
-print("| seeded change | what it does | caught with a concrete failing input by (seed 0, all 19 checks) | caught as `no-failing-input-found` by | with a failing input under seeds 1-3 (own check and seed-0 catchers) |")
-print("|---|---|---|---|---|")
+    rows.append("| %s | %s | %s | %s | %s | %s |%s" % (sid, s[:200] + ("…" if len(s) > 200 else ""), ", ".join(with_input) or "—", ", ".join(only_corr) or "—",
+                                                   ", ".join(cell) or "—", static, (" exit 2: " + ", ".join(infra)) if infra else ""))
+print("| seeded change | what it does | caught with a concrete failing input by (seed 0, all 19 checks) | caught as `no-failing-input-found` by | with a failing input under seeds 1-3 (own check and seed-0 catchers) | theorem files that stop building when every translator is re-run on the change (tools/seed_static.sh, final machinery) |")
+print("|---|---|---|---|---|---|")
 print("\n".join(rows))
 if retired:
     print()
